@@ -784,6 +784,12 @@ package astits
 //@   requires itOK(i)
 //@   modifies i.offset
 //@   opt sweep:C03
+//@   let mjd0 = int(old(be16(i.bs, i.offset)))
+//@   split mjd0 & 0x8000 != 0, mjd0 & 0x4000 != 0, mjd0 & 0x2000 != 0, mjd0 & 0x1000 != 0, mjd0 & 0x800 != 0
+//@   at call time.Date#0 assert [C15,THOROUGH] y1: yt == dvbY1(mjd0)
+//@   at call time.Date#0 assert [C15,THOROUGH] m1: mt == dvbM1(mjd0)
+//@   at call time.Date#0 assert [C15,THOROUGH] ym: $year == dvbYear(mjd0) && int($month) == dvbMonth(mjd0)
+//@   at call time.Date#0 assert [C15] midnight: $hour == 0 && $min == 0 && $sec == 0 && $nsec == 0
 //@   ensures [C03] bound: err == nil ==> old(i.offset) <= i.offset && i.offset <= len(i.bs) + 0x10000
 
 //@ func parseDescriptors
@@ -1410,3 +1416,54 @@ package astits
 //@   modifies writer(w)
 //@   loop 0 invariant [C14,C13,C09] idx: rangeindex == iter - 1 && iter <= len(ds) && aligned(w) && wN(w) == old(wN(w)) + written && 0 <= written && written <= 257 * iter && wPrefix(w)
 //@   ensures [C14,C13,C09] count: result1 == nil ==> wN(w) == old(wN(w)) + result0 && aligned(w) && wPrefix(w)
+
+// ---------------------------------------------------------------------------
+// dvb.go, write side (C15)
+
+// time package (assumed, per its documentation): the float accessors of a Duration truncate to the integer
+// quotient (exact below 2^53 ns); the calendar accessors and Sub/Truncate are left uninterpreted.
+//@ extern (time.Duration).Hours
+//@   opt pure
+//@   ensures [C15,C14] trunc: 0 <= d && d < 0x20000000000000 ==> 0.0 <= result && result < 9007199254740992.0 && int(result) == d / 3600000000000
+//@ extern (time.Duration).Minutes
+//@   opt pure
+//@   ensures [C15,C14] trunc: 0 <= d && d < 0x20000000000000 ==> 0.0 <= result && result < 9007199254740992.0 && int(result) == d / 60000000000
+//@ extern (time.Duration).Seconds
+//@   opt pure
+//@   ensures [C15,C14] trunc: 0 <= d && d < 0x20000000000000 ==> 0.0 <= result && result < 9007199254740992.0 && int(result) == d / 1000000000
+//@ extern (time.Time).Year
+//@   opt pure
+//@ extern (time.Time).Month
+//@   opt pure
+//@ extern (time.Time).Day
+//@   opt pure
+//@ extern (time.Time).Sub
+//@   opt pure
+//@ extern (time.Time).Truncate
+//@   opt pure
+
+// Durations are emitted as BCD digit pairs of hours, minutes (and seconds), for every duration below 100 hours.
+//@ func writeDVBDurationMinutes
+//@   requires aligned(w) && 0 <= wN(w) && wN(w) < 0x400000000000
+//@   modifies writer(w)
+//@   let n0 = old(wN(w))
+//@   ensures [C15] bytes: 0 <= d && d < 360000000000000 ==> wb(w, n0, 0) == bcdRepr(u8(d / 3600000000000)) && wb(w, n0, 1) == bcdRepr(u8(d / 60000000000 % 60))
+//@   ensures [C15,C14] count: wN(w) == n0 + 2 && aligned(w) && result0 == 2 && result1 == nil && wPrefix(w)
+//@ func writeDVBDurationSeconds
+//@   requires aligned(w) && 0 <= wN(w) && wN(w) < 0x400000000000
+//@   modifies writer(w)
+//@   let n0 = old(wN(w))
+//@   ensures [C15] bytes: 0 <= d && d < 360000000000000 ==> wb(w, n0, 0) == bcdRepr(u8(d / 3600000000000)) && wb(w, n0, 1) == bcdRepr(u8(d / 60000000000 % 60)) && wb(w, n0, 2) == bcdRepr(u8(d / 1000000000 % 60))
+//@   ensures [C15,C14] count: wN(w) == n0 + 3 && aligned(w) && result0 == 3 && result1 == nil && wPrefix(w)
+
+// writeDVBTime: the 16-bit date is the Modified Julian Date of the calendar day (Annex C, exact arithmetic), for
+// every day from 1901 to 2099; the time of day follows in BCD; 5 bytes in all.
+//@ func writeDVBTime
+//@   requires aligned(w) && 0 <= wN(w) && wN(w) < 0x200000000000
+//@   modifies writer(w)
+//@   let n0 = old(wN(w))
+//@   let Y = retof("(time.Time).Year", 0)
+//@   let M = int(retof("(time.Time).Month", 0))
+//@   let D = retof("(time.Time).Day", 0)
+//@   ensures [C15] mjd: 1901 <= Y && Y <= 2099 && 1 <= M && M <= 12 && 1 <= D && D <= 31 ==> u16(wb(w, n0, 0)) << 8 | u16(wb(w, n0, 1)) == u16(dvbMJD(Y - 1900, M, D))
+//@   ensures [C15,C14] count: wN(w) == n0 + 5 && aligned(w) && result0 == 5 && result1 == nil && wPrefix(w)
